@@ -26,6 +26,15 @@ rm $WT/$DIR/zz_seeded_demo_test.go
 echo "== full suite with change (must pass)"
 go test -vet=off -count=1 ./... > /tmp/seed-out/$P/$V.suite.log 2>&1; SUITE=$?
 grep -v '^ok\|no test files' /tmp/seed-out/$P/$V.suite.log | head
+if [ $SUITE != 0 ]; then
+  # known timing-flaky tests of the repository (e.g. messagequeue TestDedupingMessages): retry failing packages twice
+  for try in 1 2; do
+    PK=$(grep '^FAIL\s' /tmp/seed-out/$P/$V.suite.log | awk '{print $2}' | sed 's#github.com/ipfs/go-graphsync#.#')
+    [ -z "$PK" ] && break
+    go test -vet=off -count=1 $PK > /tmp/seed-out/$P/$V.suite.log 2>&1; SUITE=$?
+    [ $SUITE = 0 ] && break
+  done
+fi
 git -C $WT checkout -q -- . ; git -C $WT clean -fdq
 echo "base=$BASE mut=$MUT suite=$SUITE"
 if [ $BASE = 0 ] && [ $MUT != 0 ] && [ $SUITE = 0 ]; then
